@@ -967,6 +967,10 @@ pub fn exec(cfg: &Config, ops: &[Op], run_tag: &str) -> ExecResult {
                             let r = db.remove_node_property(NodeId::new(id), key);
                             let want = w.model.nodes[&id].props.contains_key(key);
                             if r != want {
+                                let want_asis = w.model_logged.nodes.get(&id).is_some_and(|n| n.props.contains_key(key));
+                                if r == want_asis && !w.unlogged_seen.is_empty() {
+                                    return Err("as-is:unlogged".to_string());
+                                }
                                 return Err(format!("remove_node_property({id},{key}) returned {r}, expected {want}"));
                             }
                             applied_both(&mut w, &|g| { if let Some(n) = g.nodes.get_mut(&id) { n.props.remove(key); } }, logged);
@@ -1099,6 +1103,16 @@ pub fn exec(cfg: &Config, ops: &[Op], run_tag: &str) -> ExecResult {
         .unwrap_or_else(|p| Err(format!("panic: {p}")));
         w.db = Some(db_owned);
         if let Err(e) = res {
+            if e == "as-is:unlogged" {
+                let kinds: Vec<&str> = w.unlogged_seen.iter().copied().collect();
+                for k in kinds {
+                    w.find(
+                        format!("{} | unlogged-mutation-lost | kind={k}", w.prop),
+                        format!("step {i}: {} answered as the as-is model (unlogged mutations skipped, stray property values kept) predicts", op.kind()),
+                    );
+                }
+                break 'ops;
+            }
             let class = if e.starts_with("id-collision") {
                 "id-collision".to_string()
             } else if e.starts_with("panic") {
